@@ -11,6 +11,8 @@
 #include <stdio.h>
 #include <stdlib.h>
 #include <string.h>
+#include <sys/time.h>
+#include <time.h>
 #include <unistd.h>
 #include "vsched.h"
 
@@ -28,6 +30,7 @@ typedef struct {
     void* mutex;          /* mutex wanted (WANT_MUTEX) or to re-acquire (COND/WOKEN) */
     void* cond;
     int timed, timedout;
+    long long deadline;   /* virtual time (ns) at which a timed wait expires */
     int join_target;
     sem_t sem;
     pthread_t th;
@@ -50,6 +53,32 @@ static int initialised;
 static unsigned char* dec;
 static size_t dec_len, dec_pos;
 static int spurious_budget = 3;
+/* Virtual clock: clock_gettime / gettimeofday of the code under test are redirected here (-Wl,--wrap), so time is part of the
+ * schedule.  It stands still while threads run, jumps to the deadline when a timeout fires, and moves a fraction of the remaining
+ * time towards the deadline when a timed waiter is woken spuriously - a timed wait returns ETIMEDOUT only at or after its abstime. */
+#define VS_EPOCH_S 1000000000LL
+#define VS_TIME_FAR 4000000000000000000LL     /* deadline of a wait whose abstime is beyond ~126 years */
+#define VS_MAX_JUMP (1LL << 50)                /* the clock never jumps further than ~13 days at once (keeps it far from overflow) */
+static long long vnow_ns;
+long long vs_now(void) { return vnow_ns; }
+int __wrap_clock_gettime(clockid_t id, struct timespec* ts) {
+    (void)id;
+    ts->tv_sec = (time_t)(VS_EPOCH_S + vnow_ns / 1000000000LL);
+    ts->tv_nsec = (long)(vnow_ns % 1000000000LL);
+    return 0;
+}
+int __wrap_gettimeofday(struct timeval* tv, void* tz) {
+    (void)tz;
+    tv->tv_sec = (time_t)(VS_EPOCH_S + vnow_ns / 1000000000LL);
+    tv->tv_usec = (long)((vnow_ns % 1000000000LL) / 1000);
+    return 0;
+}
+static void fire_timeout(int t) {
+    long long left = T[t].deadline - vnow_ns;
+    if (left > VS_MAX_JUMP) left = VS_MAX_JUMP;       /* callers make no claim about timeouts that long (harness: c < 2^50) */
+    if (left > 0) vnow_ns += left;
+    T[t].st = ST_WOKEN; T[t].timedout = 1;
+}
 static unsigned long vclock;
 static int rr_last;
 static int deadlocked;
@@ -134,7 +163,7 @@ static int choose(void) {
             /* nothing can run: pending timeouts fire first, then a thread parked in vs_idle_wait gets the baton */
             int idle = -1, timedw = -1;
             for (i = 0; i < nT; i++) { if (T[i].st == ST_IDLE) idle = i; if (T[i].st == ST_COND && T[i].timed && timedw < 0) timedw = i; }
-            if (timedw >= 0) { T[timedw].st = ST_WOKEN; T[timedw].timedout = 1; timeouts_fired++; continue; }
+            if (timedw >= 0) { fire_timeout(timedw); timeouts_fired++; continue; }
             if (idle >= 0) { T[idle].st = ST_RUNNABLE; return idle; }
         }
         if (dec_pos < dec_len) {
@@ -142,6 +171,8 @@ static int choose(void) {
                 if (T[i].st == ST_COND && !T[i].timed && spurious_budget > 0) { opt_kind[n] = 1; opt_t[n++] = i; }
                 if (T[i].st == ST_COND && T[i].timed) { opt_kind[n] = 2; opt_t[n++] = i; }
             }
+            /* spurious wake-up of a timed waiter: time has passed, but not all of it */
+            for (i = 0; i < nT; i++) if (T[i].st == ST_COND && T[i].timed && spurious_budget > 0) { opt_kind[n] = 3; opt_t[n++] = i; }
             if (n == 0) report_deadlock();
             i = dec[dec_pos++] % n;
         } else {
@@ -158,7 +189,14 @@ static int choose(void) {
         }
         if (opt_kind[i] == 0) { rr_last = opt_t[i]; return opt_t[i]; }
         if (opt_kind[i] == 1) { T[opt_t[i]].st = ST_WOKEN; spurious_budget--; spurious_used++; }
-        else { T[opt_t[i]].st = ST_WOKEN; T[opt_t[i]].timedout = 1; timeouts_fired++; }
+        else if (opt_kind[i] == 3) {
+            long long left = T[opt_t[i]].deadline - vnow_ns;
+            int q = dec_pos < dec_len ? 1 + dec[dec_pos++] % 3 : 2;         /* a quarter, half or three quarters of what is left */
+            if (left > VS_MAX_JUMP) left = VS_MAX_JUMP;
+            if (left > 0) vnow_ns += left / 4 * q;
+            T[opt_t[i]].st = ST_WOKEN; spurious_budget--; spurious_used++;
+        }
+        else { fire_timeout(opt_t[i]); timeouts_fired++; }
     }
 }
 
@@ -248,6 +286,13 @@ int __wrap_pthread_cond_timedwait(pthread_cond_t* c, pthread_mutex_t* m, const s
             _exit(66);
         }
         return EINVAL;
+    }
+    {
+        long long sec = (long long)t->tv_sec - VS_EPOCH_S, dl;
+        if (sec < 0) dl = 0;
+        else if (sec >= VS_TIME_FAR / 1000000000LL) dl = VS_TIME_FAR;
+        else dl = sec * 1000000000LL + t->tv_nsec;
+        T[self_id].deadline = dl;
     }
     return cond_wait_common(c, m, 1);
 }
